@@ -1,4 +1,5 @@
 import IsoMdl.Model.ReaderAuth
+import IsoMdl.Model.ResponseFacts
 /-
 C03 — Reader accepts an issuer signature only from a trusted document signer.
 -/
@@ -80,7 +81,65 @@ theorem C03_not_valid_cases (f : Facts)
   obtain ⟨_, _, _, _, hx, hxp, hc, hk, _, hp, hs, ha, _, _, _⟩ := this
   rcases h with h | h | h | h | h | h | h <;> simp_all
 
+section Wire
+open IsoMdl.ResponseFacts
+
+/-- THE ISSUER SIGNATURE FROM THE WIRE: when the model's `isa` fact holds for a response, the key is the
+one handed in (the first x5chain certificate's - whether that certificate chains to a trusted IACA is
+the separate fact `chainErrors`, C12), the document judged is the first mDL document, and the
+signature in its issuerAuth verifies under that key over Sig_structure(protected, payload) with the
+payload ATTACHED in that same COSE_Sign1. -/
+theorem C03_wire_issuer_signature_bound (resp transcript : Cbor) (ikey : Option (Nat × Nat))
+    (h : (compute resp transcript ikey).isa = true) :
+    ∃ doc x y, firstMdl resp = some doc ∧ ikey = some (x, y) ∧
+      ecdsaVerify x y
+        (ResponseFacts.sigStructure (match issuerAuthOf doc with | some (.bytes p :: _) => p | _ => [])
+          ((issuerPayload doc).getD []))
+        (match issuerAuthOf doc with | some [_, _, _, .bytes s] => s | _ => []) = true := by
+  unfold compute at h
+  cases hd : firstMdl resp with
+  | none => simp [hd] at h
+  | some doc =>
+    simp only [hd] at h
+    cases ikey with
+    | none => simp at h
+    | some k => exact ⟨doc, k.1, k.2, rfl, rfl, h⟩
+
+/-- THE MSO JUDGED IS THE SIGNED ONE: the MSO against which the digests, the docType and the device key are
+taken (`mso`, `dig`, `dt`, `dkey`, `dsa` of the model's facts) is decoded from the payload of that same
+issuerAuth - the bytes the issuer signature covers - and from nothing else in the response. -/
+theorem C03_wire_mso_is_signed_payload (resp transcript : Cbor) (ikey : Option (Nat × Nat))
+    (h : (compute resp transcript ikey).mso = true) :
+    ∃ doc u1 u2 payload u3 m, firstMdl resp = some doc ∧ issuerAuthOf doc = some [u1, u2, .bytes payload, u3] ∧
+      msoOf payload = some m ∧
+      (compute resp transcript ikey).dig = digestsMatch doc m ∧
+      (compute resp transcript ikey).dkey = (deviceKeyOf (some m)).1 ∧
+      (compute resp transcript ikey).dsa = deviceSigAccepts doc transcript (deviceKeyOf (some m)).2 := by
+  unfold compute at h ⊢
+  cases hd : firstMdl resp with
+  | none => simp [hd] at h
+  | some doc =>
+    simp only [hd] at h ⊢
+    cases hm : msoOfDoc doc with
+    | none => simp [hm] at h
+    | some m =>
+      unfold msoOfDoc at hm
+      cases hp : issuerPayload doc with
+      | none => simp [hp] at hm
+      | some payload =>
+        simp only [hp, Option.bind_some] at hm
+        unfold issuerPayload at hp
+        split at hp
+        · rename_i u1 u2 p u3 hia
+          simp only [Option.some.injEq] at hp
+          subst hp
+          refine ⟨doc, u1, u2, p, u3, m, rfl, hia, hm, ?_, ?_, ?_⟩ <;> simp
+        · simp at hp
+
+end Wire
+
 /-- non-vacuity: an honest response is Valid/Valid without errors; one flipped fact is not. -/
+
 def honest : Facts :=
   { decrypts := true, decodes := true, hasDocuments := true, hasMdlDoc := true, x5chainPresent := true,
     x5chainParses := true, namespacesPresent := true, coreNamespacePresent := true, chainErrors := 0,
